@@ -86,7 +86,7 @@ PROPS = {
         ]
 },
     "C06": {
-        "lean_modules": ["InTotoModel.Props.C06", "InTotoModel.Props.NonVacuity"],
+        "lean_modules": ["InTotoModel.Props.C06", "InTotoModel.Props.NonVacuity", "InTotoModel.Props.Spec"],
         "claim": "verify = ok implies the enforced layout's expiry is not earlier than the clock reading, and the same for every sub-layout that counted as evidence (via the C15 theorem, recursively). The reading of the expires text is modelled too (Model/Time.lean: chrono's RFC 3339 reader, conversion to UTC, truncation to the second, the writer): every notation of an instant - any UTC offset within +-23:59, Z/z, T/t/space, -/U+2212, with or without a fraction, leap seconds - reads as that instant (calendar arithmetic proved by decomposition, no bound on the year inside 0000-9999), instants are ordered as chrono orders them, and the written text reads back. Lean theorems for all clocks, instants and notations; boundary, far past/future and offset-notation scenarios on the real code with the clock hook; the reader/writer model is compared with chrono and with the layout reader on generated, re-notated and edited texts.",
         "level_note": "Trusted: Lean kernel; the hand-written model of chrono's RFC 3339 reader/writer (validated differentially against chrono 0.4.45 and against LayoutMetadata's own (de)serialiser); the clock hook.",
         "technique": "Lean 4 theorems about an executable model + model/implementation correspondence check (differential run with property oracle)",
@@ -104,7 +104,7 @@ PROPS = {
         ]
 },
     "C07": {
-        "lean_modules": ["InTotoModel.Props.C07", "InTotoModel.Props.NonVacuity"],
+        "lean_modules": ["InTotoModel.Props.C07", "InTotoModel.Props.NonVacuity", "InTotoModel.Props.Spec"],
         "claim": "verify = ok implies that for every step with threshold >= 2 all verified links (sub-layout summaries included) have identical materials and identical products; a single dissenting pair makes the agreement stage fail. Lean theorems; dissent scenarios (digest, path, extra entry) on the real code.",
         "level_note": "Trusted: Lean kernel; artifact maps compared as the code compares them (BTreeMap/HashMap equality = canonical list equality).",
         "technique": "Lean 4 theorems about an executable model + model/implementation correspondence check (differential run with property oracle)",
@@ -121,7 +121,7 @@ PROPS = {
 },
     "C08": {
         "translate": ["pipeline.py"],
-        "lean_modules": ["InTotoModel.Props.C08", "InTotoModel.Props.NonVacuity"],
+        "lean_modules": ["InTotoModel.Props.C08", "InTotoModel.Props.NonVacuity", "InTotoModel.Props.Spec"],
         "claim": "An inspectionStarted event of a layout occurs in the trace only if stages 1-9 of that layout passed; if any of them fails the result is not ok and the trace has no event of that layout; success requires every inspection to have been started and exited 0, and the rule engine to accept every inspection against the extended link table. Lean theorems over the event trace (induction on delegation depth); sentinel-based scenarios on the real code.",
         "level_note": "Trusted: Lean kernel; process spawning, CWD handling, what record_artifacts('.') sees and the link file written afterwards are runtime behaviour: observed, not modelled.",
         "technique": "Lean 4 theorems about an executable model + structure of the pipeline translated from the Rust source on every run + model/implementation correspondence check (differential run with property oracle)",
@@ -179,7 +179,7 @@ PROPS = {
     },
     "C15": {
         "translate": ["pipeline.py"],
-        "lean_modules": ["InTotoModel.Props.C15", "InTotoModel.Props.NonVacuity"],
+        "lean_modules": ["InTotoModel.Props.C15", "InTotoModel.Props.NonVacuity", "InTotoModel.Props.Spec"],
         "claim": "verify = ok implies every sub-layout that counted as evidence is listed under an authorized key of the step, carries that key's valid signature, and has itself passed the complete verify routine with that single key, the step's name and the sub-directory <step>.<prefix8>; plus the summary theorem (requested name; first step's materials; last step's products and command/byproducts; empty link for a step-less layout). Lean theorems; delegation scenarios (depth 1-2) with every inner failure mode on the real code.",
         "level_note": "Trusted: Lean kernel; recursion depth is fuel in the model (running out is an error, never a success).",
         "technique": "Lean 4 theorems about an executable model + structure of the pipeline translated from the Rust source on every run + model/implementation correspondence check (differential run with property oracle)",
